@@ -9,6 +9,7 @@ PID = "C19"
 
 PRELUDE = r'''#![allow(dead_code, unused_imports, clippy::all)]
 use const_default::ConstDefault;
+use generic_array::typenum::operator_aliases::{Add1, Prod};
 use generic_array::typenum::*;
 use generic_array::GenericArray;
 
@@ -25,7 +26,13 @@ const fn eq_np(x: &GenericArray<P, U2>) -> bool { let s = x.as_slice(); s.len() 
 '''
 
 TYPES = [("u8", "u8", "eq_u8"), ("u64", "u64", "eq_u64"), ("a3", "[u8; 3]", "eq_a3"), ("nested", "GenericArray<u8, U3>", "eq_nested"), ("P", "P", "eq_p"), ("nestedP", "GenericArray<P, U2>", "eq_np")]
-LENS = list(range(0, 65)) + [100, 127, 128, 255, 256, 1000, 1023, 1024]
+LENS = list(range(0, 65)) + [100, 127, 128, 255, 256, 1000, 1023, 1024, 2047, 2048, 4095, 4096, 8192, 10000]
+EXPR = {3000: "Prod<U1000, U3>", 3500: "Prod<U500, U7>", 4097: "Add1<U4096>", 5000: "Prod<U1000, U5>", 6000: "Prod<U1000, U6>", 12000: "Prod<U1000, U12>"}
+LENS += list(EXPR)
+
+
+def uty(n):
+    return EXPR.get(n, f"U{n}")
 
 
 def run(root, pid, tier, seed):
@@ -44,8 +51,8 @@ def run(root, pid, tier, seed):
         spans = []
         ln = PRELUDE.count("\n") + 1
         for k, (tn, ty, eq, n) in enumerate(chunk):
-            code = (f"const C_{k}: GenericArray<{ty}, U{n}> = GenericArray::const_default();\n"
-                    f"const D_{k}: GenericArray<{ty}, U{n}> = <GenericArray<{ty}, U{n}> as ConstDefault>::DEFAULT;\n"
+            code = (f"const C_{k}: GenericArray<{ty}, {uty(n)}> = GenericArray::const_default();\n"
+                    f"const D_{k}: GenericArray<{ty}, {uty(n)}> = <GenericArray<{ty}, {uty(n)}> as ConstDefault>::DEFAULT;\n"
                     f"const _: () = {{ let s = C_{k}.as_slice(); assert!(s.len() == {n}); let mut i = 0; while i < s.len() {{ assert!({eq}(&s[i])); i += 1; }}\n"
                     f"    let s = D_{k}.as_slice(); assert!(s.len() == {n}); let mut i = 0; while i < s.len() {{ assert!({eq}(&s[i])); i += 1; }} }};")
             spans.append((ln, ln + 3, (tn, n)))
@@ -53,7 +60,7 @@ def run(root, pid, tier, seed):
             ln += 4
         lines.append("fn main() {\n    let mut bad = 0u32;")
         for k, (tn, ty, eq, n) in enumerate(chunk):
-            lines.append(f"    {{ let r: GenericArray<{ty}, U{n}> = GenericArray::const_default(); let d: GenericArray<{ty}, U{n}> = Default::default();"
+            lines.append(f"    {{ let r: GenericArray<{ty}, {uty(n)}> = GenericArray::const_default(); let d: GenericArray<{ty}, {uty(n)}> = Default::default();"
                          f" if r != C_{k} || r != D_{k} || r != d || r.len() != {n} || !r.iter().all(|x| {eq}(x)) {{ println!(\"FAIL {tn} {n}\"); bad += 1; }} }}")
         lines.append('    println!("DONE bad={}", bad);\n}')
         return "\n".join(lines) + "\n", spans
@@ -105,7 +112,7 @@ def run(root, pid, tier, seed):
     samples = [{"element": items[i][1], "N": items[i][3]} for i in (0, 70, 200, len(items) - 1)]
     return E.evidence(
         pid, tier, seed, "exploration", len(items), len(nontrivial),
-        "const half: for every N in 0..=64 and 100,127,128,255,256,1000,1023,1024 and element types u8, u64, [u8;3], GenericArray<u8,U3>, P{a,b} with non-zero DEFAULT, GenericArray<P,U2>: const items C = const_default() and D = DEFAULT whose every element is compared with T::DEFAULT inside the const evaluator (length N asserted), and at run time const_default() == C == D == Default::default(). "
+        "const half: for every N in 0..=64 and 100,127,128,255,256,1000,1023,1024,2047,2048,3000,3500,4095,4096,4097,5000,6000,8192,10000,12000 and element types u8, u64, [u8;3], GenericArray<u8,U3>, P{a,b} with non-zero DEFAULT, GenericArray<P,U2>: const items C = const_default() and D = DEFAULT whose every element is compared with T::DEFAULT inside the const evaluator (length N asserted), and at run time const_default() == C == D == Default::default(). "
         "non-trivial = N >= 2 and an element type other than u8; distinct = distinct (type, N)",
         samples, {"const_items": len(items)}, exhaustive=True,
         assumptions=[], failures=failures, wall=time.time() - t0, extra={"programs": nchunks})
